@@ -254,6 +254,9 @@ static std::string vecQ(const VectorRational& v)
    return o.empty() ? "," : o;
 }
 
+// records of the guarded driver hook (SOPLEX_VERIF_DRIVER_TRACE) for the optimize() call just made
+static std::vector<long> drvTrace;
+
 static void observe(SP& s, const std::string& id, int step, LineBuf& lb, bool raised, const char* what, double wall)
 {
    int n = s.numCols(), m = s.numRows();
@@ -266,6 +269,19 @@ static void observe(SP& s, const std::string& id, int step, LineBuf& lb, bool ra
           s._solver.rep() == SPxSolverBase<double>::COLUMN ? "C" : "R", s._statistics->refinements, s._statistics->stallRefinements,
           s._isRealLPLoaded ? 1 : 0);
    printf(" lines=%d raised=%d wall=%.6f simp=%d", lb.count, raised ? 1 : 0, wall, (int)s._simplifierMainSM.result());
+
+   // the floating-point solve driver: parameters it reads, the flags it leaves and its control trace (replayed through
+   // coq/DriverModel.v); exact solves take another path and are not replayed
+   if(drvTrace.size() >= 5 && drvTrace[0] == 1)
+   {
+      printf(" drvp=%d,%d,%d,%d,%d drvf=%d,%d,%d,%d drv=", s.intParam(SP::SIMPLIFIER) != SP::SIMPLIFIER_OFF ? 1 : 0,
+             s.intParam(SP::SCALER) != SP::SCALER_OFF ? 1 : 0, s.boolParam(SP::PERSISTENTSCALING) ? 1 : 0, s.boolParam(SP::ENSURERAY) ? 1 : 0,
+             (s.realParam(SP::OBJLIMIT_LOWER) == -s.realParam(SP::INFTY) && s.realParam(SP::OBJLIMIT_UPPER) == s.realParam(SP::INFTY)) ? 0 : 1,
+             (int)st, s.hasBasis() ? 1 : 0, s.hasPrimalRay() ? 1 : 0, s.hasDualFarkas() ? 1 : 0);
+
+      for(size_t k = 0; k + 4 < drvTrace.size(); k += 5)
+         printf("%ld,%ld,%ld,%ld,%ld;", drvTrace[k], drvTrace[k + 1], drvTrace[k + 2], drvTrace[k + 3], drvTrace[k + 4]);
+   }
 
    if(s.hasSol())
       printf(" obj=%s", dy(s.objValueReal()).c_str());
@@ -409,10 +425,29 @@ int main(int argc, char** argv)
                   struct timespec t0, t1;
                   clock_gettime(CLOCK_MONOTONIC, &t0);
 
-                  if(cmd == "optint")
-                     s->optimize(&flag);
-                  else
-                     s->optimize();
+                  drvTrace.clear();
+#ifdef SCIPOPT_SOPLEX_VERIF
+                  verifDriverTraceSink() = &drvTrace;
+#endif
+
+                  try
+                  {
+                     if(cmd == "optint")
+                        s->optimize(&flag);
+                     else
+                        s->optimize();
+                  }
+                  catch(...)
+                  {
+#ifdef SCIPOPT_SOPLEX_VERIF
+                     verifDriverTraceSink() = nullptr;
+#endif
+                     throw;
+                  }
+
+#ifdef SCIPOPT_SOPLEX_VERIF
+                  verifDriverTraceSink() = nullptr;
+#endif
 
                   clock_gettime(CLOCK_MONOTONIC, &t1);
                   observe(*s, rid + (badparam ? "!badparam" : ""), step, lb, flag, cmd.c_str(),
